@@ -221,10 +221,14 @@ def chainN (o : Obj) : Nat → G Obj
     modify fun s => { s with feats := s.feats + 1 }
     chainN (.ref id 0) k
 
-/-- chain length: mostly 0/1, sometimes 2 or 3 -/
+/-- chain length: mostly 0/1, sometimes 2 or 3, one time in 20 long (4..44 links: no hop budget
+    smaller than the number of defined objects is correct, see the long-chain family below) -/
 def chainLen (min : Nat) : G Nat := do
-  let r ← rnd 10
-  return Nat.max min (if r < 4 then 0 else if r < 7 then 1 else if r < 9 then 2 else 3)
+  let r ← rnd 20
+  if r == 19 then
+    let l ← rnd 41
+    return l + 4
+  return Nat.max min (if r < 8 then 0 else if r < 14 then 1 else if r < 18 then 2 else 3)
 
 def mkStream : G Obj := do
   let r ← rnd 3
@@ -424,7 +428,7 @@ def noInline : Shape → Shape
 
 def posNames : List String :=
   ["root-kids", "contents", "contents-elem", "root-resources", "font-value", "font-entry", "encoding",
-   "fontdescriptor", "fontfile2", "node-kids", "page-resources", "contents-array"]
+   "fontdescriptor", "fontfile2", "node-kids", "page-resources", "contents-array", "node-resources", "kid-entry"]
 
 /-- a two-level tree (root 2, page 3, inner node 4, page 5) with the shape at position `pos` -/
 def shapeDoc (pos : Nat) (sh : Shape) : List (Nat × Obj) :=
@@ -450,28 +454,37 @@ def shapeDoc (pos : Nat) (sh : Shape) : List (Nat × Obj) :=
     else if pos == 2 then (.arr [.ref 9 0, ce.1, .ref 9 0], ce.2)
     else if pos == 11 then shapeObjs 50 (.arr [.ref 9 0, .ref 9 0]) sh
     else (.ref 9 0, [])
-  let kroot := sel 0 (.arr [.ref 3 0, .ref 4 0]) (.arr [.ref 3 0, .ref 4 0])
   let knode := sel 9 (.arr [.ref 5 0]) (.arr [.ref 5 0])
+  -- position 12: the inner node declares its own /Resources (font F3) behind the shape, below a root
+  -- that declares F1: page 5 must inherit F3 (a resolver that gives up shows F1 instead)
+  let nres := sel 12 (mkDict [("Font", mkDict [("F3", font0)])]) .null
+  let node4 := mkDict ([("Type", nm "Pages"), ("Parent", .ref 2 0), ("Count", .int 1), ("Kids", knode.1)] ++
+                       (if pos == 12 then [("Resources", nres.1)] else []))
+  -- position 13: the second entry of the root's /Kids array is the shape in front of the node
+  -- dictionary (kid entries are looked up once, not through chains)
+  let kent := sel 13 node4 (.ref 4 0)
+  let kroot := sel 0 (.arr [.ref 3 0, .ref 4 0]) (.arr [.ref 3 0, kent.1])
   let page3 := [("Type", nm "Page"), ("Parent", .ref 2 0), ("Contents", cont.1),
                 ("MediaBox", .arr [.int 0, .int 0, .int 612, .int 792])] ++
                (if pos == 10 then [("Resources", pres.1)] else [])
   [(1, mkDict [("Type", nm "Catalog"), ("Pages", .ref 2 0)]),
    (2, mkDict [("Type", nm "Pages"), ("Count", .int 2), ("Kids", kroot.1), ("Resources", rroot.1)]),
    (3, mkDict page3),
-   (4, mkDict [("Type", nm "Pages"), ("Parent", .ref 2 0), ("Count", .int 1), ("Kids", knode.1)]),
+   (4, node4),
    (5, mkDict [("Type", nm "Page"), ("Parent", .ref 4 0), ("Contents", .ref 9 0),
                ("MediaBox", .arr [.int 0, .int 0, .int 612, .int 792])]),
    (8, descr), (9, st)] ++
-  ff.2 ++ fdv.2 ++ enc.2 ++ fe.2 ++ fv.2 ++ rroot.2 ++ pres.2 ++ cont.2 ++ kroot.2 ++ knode.2
+  ff.2 ++ fdv.2 ++ enc.2 ++ fe.2 ++ fv.2 ++ rroot.2 ++ pres.2 ++ cont.2 ++ kroot.2 ++ knode.2 ++ nres.2 ++ kent.2
 
 /-- does the REAL type checker accept the document with this shape at this position?  Observed with
     the harness: it rejects a chain that loops or dangles under /Kids, /Contents (value, array,
-    element) and a page's /Resources, and constrains nothing under the root's /Resources, the /Font
-    value, font entries, /Encoding, /FontDescriptor, /FontFile2.  A wrong entry shows up as
-    `bad tcreject`. -/
+    element), a kid entry and a page's /Resources, and constrains nothing under the root's or an inner
+    node's /Resources, the /Font value, font entries, /Encoding, /FontDescriptor, /FontFile2; it follows
+    chains of any length (observed up to 300 links); a kid entry that is a direct dictionary is
+    rejected.  A wrong entry shows up as `bad tcreject`. -/
 def shapeTC (pos : Nat) (sh : Shape) : Bool :=
-  let ends := match sh with | .direct | .chain _ => true | _ => false
-  ends || !([0, 1, 2, 9, 10, 11].contains pos)
+  let ends := match sh with | .direct => pos != 13 | .chain _ => true | _ => false
+  ends || !([0, 1, 2, 9, 10, 11, 13].contains pos)
 
 def shapeCases : List (String × String) :=
   (List.range posNames.length).flatMap fun pos =>
@@ -482,6 +495,46 @@ def shapeCases : List (String × String) :=
       [(nmv, encCase "any" 1 doc)] ++ (if shapeTC pos sh then [(nmv ++ "-tc", encCase "tc" 1 doc)] else [])
 
 
+/-! ### long reference chains: every length 0..40 and a few long ones at every position
+
+  `resolve_chain` must follow a chain of ANY length (its only legitimate reason to give up is a
+  repeated identifier or an undefined one), so the family sweeps the length systematically: a hop
+  budget, a recursion limit or a fixed-size visited buffer of any size <= 300 shows up as a page that
+  silently inherits its ancestor's resources (positions root/node/page-resources: the root always
+  declares F1, the node F3, the page F2) or as a spurious error (/Kids, /Contents, /Font, /Encoding).
+  The same lengths are used as the TAIL in front of a cycle (must be an error / absent exactly as a
+  short one) and in front of an undefined object. -/
+
+def chainLens : List Nat := List.range 41 ++ [64, 100, 300]
+
+/-- positions whose target is a stream (no direct value) -/
+def streamPos (pos : Nat) : Bool := [1, 2, 8].contains pos
+
+/-- `full = false` (quick): one cycle length per tail (1 + tail % 3); `full = true`: cycles 1, 2, 3 -/
+def longShapes (full : Bool) : List Shape :=
+  chainLens.map .chain ++
+  (chainLens.flatMap fun t => if full then [1, 2, 3].map (Shape.lasso t) else [Shape.lasso t (1 + t % 3)]) ++
+  chainLens.map .dangling
+
+def longCases (full : Bool) : List (String × String) :=
+  (List.range posNames.length).flatMap fun pos =>
+    (longShapes full).filterMap fun sh =>
+      let sh := match sh with | .chain 0 => Shape.direct | .lasso 0 c => .cycle c | s => s
+      if streamPos pos && (match sh with | .direct => true | _ => false) then none else
+      let doc := shapeDoc pos sh
+      some (s!"{posNames[pos]?.getD "?"}-{sh.name}", encCase (if shapeTC pos sh then "tc" else "any") 1 doc)
+
+/-- a random long shape (chain / lasso / dangling with 0..47 links, sometimes 64/100/300) -/
+def longShapeG : G Shape := do
+  let k ← rnd 3
+  let r ← rnd 52
+  let l := if r < 48 then r else if r < 50 then 64 else if r == 50 then 100 else 300
+  let c ← rnd 3
+  return match k with
+    | 0 => if l == 0 then .direct else .chain l
+    | 1 => if l == 0 then .cycle (c + 1) else .lasso l (c + 1)
+    | _ => .dangling l
+
 /-- a random chain shape at a random chain position of a random (type-correct) tree; returns the tag -/
 def shapeMutG (s : GS) : G (String × List (Nat × Obj)) := do
   let nodes := typedIds s.objs "Pages"
@@ -490,6 +543,9 @@ def shapeMutG (s : GS) : G (String × List (Nat × Obj)) := do
   let page ← pickL (if pages.isEmpty then nodes else pages)
   let anyn ← pickL (nodes ++ pages)
   let sh ← pickL allShapes
+  let lsh ← longShapeG
+  let long ← rnd 2
+  let sh := if long == 0 then lsh else sh
   let r ← rnd 8
   let coin ← rnd 2
   -- the real type checker constrains a page's /Resources but not the root's (observed)
@@ -582,6 +638,7 @@ def smallCases (stride : Nat) : List String := Id.run do
 def gen (seed n : Nat) (tier : String) (emit : String → IO Unit) : IO Unit := do
   for c in smallCases (if tier == "thorough" then 1 else 7) do emit c
   for (_, c) in shapeCases do emit c
+  for (_, c) in longCases (tier == "thorough") do emit c
   for i in List.range n do
     emit (genOne (seed * 1000003 + i) (if i % 6 < 2 then 0 else if i % 6 < 3 then 1 else if i % 6 < 5 then 2 else 3))
 
